@@ -226,6 +226,14 @@ func prepare(repo, verif string) (*load.Program, error) {
 			prog.RefErrDisp = ed
 		}
 	}
+	if b, rerr := os.ReadFile(filepath.Join(filepath.Dir(anchorsPath), "lockcover.json")); rerr == nil {
+		var lc struct {
+			Cover map[string]map[string][]string `json:"cover"`
+		}
+		if json.Unmarshal(b, &lc) == nil {
+			prog.RefLockCover = lc.Cover
+		}
+	}
 	prog.RefFields = map[string]map[string]bool{}
 	for _, sa := range table.Structs {
 		m := map[string]bool{}
